@@ -503,6 +503,13 @@ CASES += [
                 // See above.
                 drop(current);''', '''                drop(current);
                 T::dec(old.as_ptr());''')]),
+    # wave 7: the transaction counter is incremented but not stored back (every transaction carries the same generation)
+    dict(name='m-generation-not-stored', kind='mutant', props=['C03', 'C13', 'C17'], expect=['C03', 'C13', 'C17'],
+         edits=[(HP, '''        local.generation.set(gen);
+''', '''''')]),
+    # wave 7: the emptiness test of rc::Weak compares the handle with itself
+    dict(name='m-weak-empty-self-compare', kind='mutant', props=['C15'], expect=['C15'],
+         edits=[(WK, '''        if RcWeak::ptr_eq(&RcWeak::new(), me) {''', '''        if RcWeak::ptr_eq(me, me) {''')]),
     # the helper of rcu takes the guard of the running attempt by value: it is destroyed after the answer sits in the helper's return place
     dict(name='m-rcu-helper-by-value', kind='mutant', props=['C18', 'C06'], expect=['C18'],
          edits=[(LB, '''            let prev = self.compare_and_swap(&*cur, new);
